@@ -34,6 +34,10 @@ class Result:
 
 def _java(args, cwd, env=None, timeout=None, heap="8g"):
     cmd = ["java", "-XX:+UseParallelGC", f"-Xmx{heap}", "-Xss256m", "-cp", JAR_CP] + args    # (deep RECURSIVE operators on long traces)
+    if cwd and os.path.basename(os.path.normpath(str(cwd))).startswith("haiway_verif_"):
+        # TLC / SANY unpack their standard modules into java.io.tmpdir and leave them there: keep that inside the check's
+        # own scratch directory, which is removed when the check ends
+        cmd.insert(1, f"-Djava.io.tmpdir={cwd}")
     e = dict(os.environ)
     e.pop("JAVA_TOOL_OPTIONS", None)
     if env:
